@@ -140,9 +140,9 @@ func RunProperty(o Options) (int, error) {
 }
 
 func init() {
-	Properties["C13"] = func(env *Env) []*Harness { return []*Harness{HExported(), HVars()} }
-	Properties["C20"] = func(env *Env) []*Harness { return []*Harness{HPairName(), HMock(), HRun()} }
-	Properties["C17"] = func(env *Env) []*Harness { return []*Harness{HRun(), HMain(), HMock()} }
+	Properties["C13"] = func(env *Env) []*Harness { return []*Harness{HExported(), HVarName(), HVars()} }
+	Properties["C20"] = func(env *Env) []*Harness { return []*Harness{HPairName(), HMock("light"), HMock("full"), HRun()} }
+	Properties["C17"] = func(env *Env) []*Harness { return []*Harness{HRun(), HMain(), HMock("light")} }
 	for _, p := range []string{"C03", "C04", "C08"} {
 		Properties[p] = func(env *Env) []*Harness { return []*Harness{HGenSeq()} }
 	}
@@ -150,17 +150,17 @@ func init() {
 	for _, p := range []string{"C05", "C06"} {
 		Properties[p] = func(env *Env) []*Harness { return []*Harness{HGenSeq(), HSched()} }
 	}
-	Properties["C02"] = func(env *Env) []*Harness { return []*Harness{HMock(), HGenSeq()} }
-	Properties["C09"] = func(env *Env) []*Harness { return []*Harness{HMock()} }
-	Properties["C10"] = func(env *Env) []*Harness { return []*Harness{HPkgPath(), HMock()} }
+	Properties["C02"] = func(env *Env) []*Harness { return []*Harness{HMock("full"), HGenSeq()} }
+	Properties["C09"] = func(env *Env) []*Harness { return []*Harness{HMock("full")} }
+	Properties["C10"] = func(env *Env) []*Harness { return []*Harness{HPkgPath(), HMock("light"), HMock("full")} }
 	Properties["C19"] = func(env *Env) []*Harness {
-		return []*Harness{HImports(), HMock(), HVars(), HRun(), HMain(), HPairName()}
+		return []*Harness{HImports(), HMock("full"), HVars(), HRun(), HMain(), HPairName()}
 	}
-	Properties["C11"] = func(env *Env) []*Harness { return []*Harness{HImports(), HMock()} }
+	Properties["C11"] = func(env *Env) []*Harness { return []*Harness{HImports(), HMock("light"), HMock("full")} }
 	Properties["C12"] = func(env *Env) []*Harness { return []*Harness{HVars()} }
 	Properties["C14"] = func(env *Env) []*Harness { return []*Harness{HOrder(), HImports()} }
 	Properties["C15"] = func(env *Env) []*Harness { return []*Harness{HRun(), HFixpoint()} }
-	Properties["C16"] = func(env *Env) []*Harness { return []*Harness{HHeader(), HMock(), HRun()} }
+	Properties["C16"] = func(env *Env) []*Harness { return []*Harness{HHeader(), HMock("light"), HRun()} }
 	Properties["C18"] = func(env *Env) []*Harness { return []*Harness{HRun()} }
 }
 
